@@ -5,7 +5,7 @@
 //! taint values. Pointer/value sets with identifiers, keyed maps and memory regions are decided by the
 //! result-validation engine (BTreeMap-backed containers are out of reach of CBMC here).
 
-use crate::c02::{any_iv, any_member, from_interval, ref_contains, to_interval, wf, IV};
+use crate::c02::{any_iv, any_member, read_back, ref_contains, to_interval, wf_iv, IV};
 use crate::common::*;
 use crate::{chk, cov};
 use cwe_checker_lib::abstract_domain::{AbstractDomain, BitvectorDomain, Interval, IntervalDomain, SizedDomain, TryToInterval};
@@ -67,9 +67,8 @@ pub fn taint<S: Src>(s: &mut S) {
     cov!(s, ta && !tb, "mixed case reached");
 }
 
-fn same_set(a: &Interval, b: &Interval) -> bool {
-    let (x, y) = (from_interval(a), from_interval(b));
-    x.s == y.s && x.e == y.e && x.stride == y.stride
+fn same_set(a: &Interval, b: &Interval, _bits: u32) -> bool {
+    a.start == b.start && a.end == b.end && a.stride == b.stride
 }
 
 /// Interval::signed_merge (no widening).
@@ -80,29 +79,30 @@ pub fn interval_merge<S: Src>(s: &mut S, bits: u32, max_stride: u64) {
     s.note(&|| format!("A=[{},{}]/{} B=[{},{}]/{} v={} ({} bits)", a.s, a.e, a.stride, b.s, b.e, b.stride, v, bits));
     let (ia, ib) = (to_interval(&a), to_interval(&b));
     let m = ia.signed_merge(&ib);
-    chk!(s, wf(&m, bits), "C03 interval: merged interval is not well-formed");
-    let mm = from_interval(&m);
-    if ref_contains(&a, v) || ref_contains(&b, v) {
-        chk!(s, ref_contains(&mm, v), "C03 interval: a member of an input is not a member of the merge");
+    match read_back(s, &m, bits) {
+        None => chk!(s, false, "C03 interval: merged interval has the wrong width"),
+        Some(mm) => {
+            chk!(s, wf_iv(&mm), "C03 interval: merged interval is not well-formed");
+            if ref_contains(&a, v) || ref_contains(&b, v) {
+                chk!(s, ref_contains(&mm, v), "C03 interval: a member of an input is not a member of the merge");
+            }
+            // stability: merging the result (rebuilt with a constant width) with an absorbed input gives the same set
+            let again = to_interval(&mm).signed_merge(&ia);
+            match read_back(s, &again, bits) {
+                None => chk!(s, false, "C03 interval: merged interval has the wrong width"),
+                Some(ag) => chk!(s, ag.s == mm.s && ag.e == mm.e && ag.stride == mm.stride, "C03 interval: merging the result with an absorbed input enlarged it"),
+            }
+            cov!(s, mm.stride > 1 && a.stride > 1 && b.stride > 1 && a.s != b.s, "strided merge of two strided intervals reached");
+        }
     }
-    let idem = ia.signed_merge(&ia);
-    chk!(s, same_set(&idem, &ia), "C03 interval: merging a value with itself changed its represented set");
-    let again = m.signed_merge(&ia);
-    chk!(s, same_set(&again, &m), "C03 interval: merging the result with an absorbed input enlarged it");
-    cov!(s, mm.stride > 1 && a.stride > 1 && b.stride > 1 && a.s != b.s, "strided merge of two strided intervals reached");
 }
 
-fn dom_contains(d: &IntervalDomain, v: i64, bits: u32) -> bool {
-    match d.try_to_interval() {
-        Ok(i) => {
-            let r = ref_contains(&from_interval(&i), v);
-            std::mem::forget(i);
-            r
-        }
-        Err(e) => {
-            std::mem::forget(e);
-            true
-        }
+fn dom_contains<S: Src>(s: &mut S, d: &IntervalDomain, v: i64, bits: u32) -> bool {
+    let (i, _, _, _) = d.verif_parts();
+    match read_back(s, i, bits) {
+        // Top is [MIN, MAX] with stride 1 and passes the membership test like any other interval
+        Some(m) => ref_contains(&m, v),
+        None => false,
     }
 }
 
@@ -116,7 +116,7 @@ pub fn domain_merge_nohints<S: Src>(s: &mut S, bits: u32, max_stride: u64) {
     let db: IntervalDomain = to_interval(&b).into();
     let m = da.merge(&db);
     if ref_contains(&a, v) || ref_contains(&b, v) {
-        chk!(s, dom_contains(&m, v, bits), "C03 interval domain: a member of an input is not a member of the merge");
+        chk!(s, dom_contains(s, &m, v, bits), "C03 interval domain: a member of an input is not a member of the merge");
     }
     chk!(s, m.bytesize() == ByteSize::new(bits as u64 / 8), "C03 interval domain: merged value has the wrong width");
     let again = m.merge(&da);
@@ -142,10 +142,8 @@ pub fn domain_merge_hints<S: Src>(s: &mut S, bits: u32, max_stride: u64, lower: 
     let db = IntervalDomain::verif_from_parts(to_interval(&b), h(lb, lower), h(ub, upper), db_);
     let m = da.merge(&db);
     if ref_contains(&a, v) || ref_contains(&b, v) {
-        chk!(s, dom_contains(&m, v, bits), "C03 interval domain (hints): a member of an input is not a member of the widened merge");
+        chk!(s, dom_contains(s, &m, v, bits), "C03 interval domain (hints): a member of an input is not a member of the widened merge");
     }
-    let (mi, _, _, _) = m.verif_parts();
-    chk!(s, wf(mi, bits), "C03 interval domain (hints): widened interval is not well-formed");
     cov!(s, !m.is_top() && !m.equal_as_value_sets(&da) && !m.equal_as_value_sets(&db), "proper widening or merge reached");
     std::mem::forget((da, db, m));
 }
@@ -155,7 +153,8 @@ crate::harnesses! {
     c03_bitvector_vv_64[4] => bitvector_vv(64);
     @quick c03_bitvector_top_32[4] => bitvector_top(32);
     @quick c03_taint[4] => taint();
-    @quick c03_interval_merge_8[4] => interval_merge(8, 255);
+    @quick c03_interval_merge_8_s15[4] => interval_merge(8, 15);
+    c03_interval_merge_8[4] => interval_merge(8, 255);
     c03_interval_merge_64_s16[4] => interval_merge(64, 16);
     c03_domain_merge_nohints_8[4] => domain_merge_nohints(8, 255);
     c03_domain_merge_lower_8[4] => domain_merge_hints(8, 255, true, false);
